@@ -140,3 +140,69 @@ Proof.
   exact (toggle_warm_tokens body kind srule (list (list N)) tok_hash run_struct hk_eqb_calls hash_calls g (fun _ => True)
            h cfg0 i j ci cj d r hk_eqb_calls_sound (hash_calls_inj_on _) Htok (fun _ _ => I) I Ni Nj Hag).
 Qed.
+
+(* ---- sharpness of the remaining hypothesis ---- *)
+Lemma spec_rel_at_0 {kind} chars (t : list (Cache.tok kind)) : Cache.spec_rel (Cache.mkchunk 0 chars t) = t.
+Proof.
+  unfold Cache.spec_rel. cbn [Cache.c_toks Cache.c_start].
+  induction t as [|[k [a b]] r IH]; [reflexivity|]. cbn [map fst snd sstart send]. rewrite !Nat.sub_0_r, IH. reflexivity.
+Qed.
+
+Lemma push_lint_0 {body} (l : glint body) : push_lint 0 l = l.
+Proof. destruct l as [[a b] x]. unfold push_lint, push_by. cbn [gl_span gl_body sstart send]. now rewrite !Nat.add_0_r. Qed.
+Lemma map_push_lint_0 {body} (ls : list (glint body)) : map (push_lint 0) ls = ls.
+Proof. induction ls as [|l t IH]; [reflexivity|]. cbn [map]. now rewrite push_lint_0, IH. Qed.
+
+Lemma kk_eqb_refl k : kk_eqb k k = true.
+Proof.
+  destruct k as [a b]. unfold kk_eqb. cbn [fst snd]. apply andb_true_iff. split; [now apply CacheProofs.text_eqb_spec|apply N.eqb_refl].
+Qed.
+
+(* the token-hash hypothesis is sharp inside C11's dispatch: a collision of the token hash on two token sequences over the
+   same characters on which the enabled pattern rules differ makes the warm group answer the second document with the
+   first document's pattern lints — not what lint_group (the cache-free path) answers *)
+Theorem tokens_need_tok_hash (body kind srule HK : Type) (tok_hash : list (Cache.tok kind) -> N)
+    (run_struct : srule -> kdoc kind -> list (glint body)) (hk_eqb : HK -> HK -> bool) (cfg_hash : config -> HK)
+    (g : group srule (kprule body kind)) (cfg : config) (chars : text) (t1 t2 : list (Cache.tok kind)) :
+  (forall a, hk_eqb a a = true) ->
+  tok_hash t1 = tok_hash t2 ->
+  let F := fun t => flat_map (fun e => if is_rule_enabled cfg (fst e) then snd e chars t else []) (g_patterns g) in
+  F t1 <> F t2 ->
+  let d1 := Cache.mkdoc [Some (Cache.mkchunk 0 chars t1)] [] 0%N in
+  let d2 := Cache.mkdoc [Some (Cache.mkchunk 0 chars t2)] [] 0%N in
+  let gc := g_with_cfg g cfg in
+  run_hist body (kdoc kind) (kchunk kind) srule (kprule body kind) k_chunks k_start run_struct k_run_pat
+    (text * N) HK kk_eqb hk_eqb (k_key tok_hash) cfg_hash g [HLint d1 []; HLint d2 []] cfg []
+  = [Ok (struct_part run_struct gc d1 ++ F t1); Ok (struct_part run_struct gc d2 ++ F t1)] /\
+  lint_group k_chunks k_start run_struct k_run_pat gc d2 = Ok (struct_part run_struct gc d2 ++ F t2) /\
+  struct_part run_struct gc d2 ++ F t1 <> struct_part run_struct gc d2 ++ F t2.
+Proof.
+  intros Hrefl Hh F Hne d1 d2 gc. subst d1 d2.
+  assert (P1 : forall t, chunk_pattern_lints k_run_pat gc (Cache.mkdoc [Some (Cache.mkchunk 0 chars t)] [] 0%N) (Some (Cache.mkchunk 0 chars t))
+               = F t).
+  { intros t. unfold chunk_pattern_lints, gc, F. cbn [g_with_cfg g_cfg g_patterns k_run_pat Cache.c_start Cache.c_chars].
+    rewrite spec_rel_at_0. apply flat_map_ext. intros [k r]. cbn [fst snd]. destruct (is_rule_enabled cfg k); [|reflexivity].
+    apply map_push_lint_0. }
+  assert (P2 : forall t, LintGroupCfg.mapM (pull_lint 0) (F t) = Ok (F t)).
+  { intros t. rewrite <- (map_push_lint_0 (F t)) at 1. apply mapM_pull_push_lint. }
+  assert (Emiss : forall t keep,
+    lint_chunk_c body (kdoc kind) (kchunk kind) srule (kprule body kind) k_start k_run_pat (text * N) HK kk_eqb hk_eqb
+      (k_key tok_hash) cfg_hash gc (Cache.mkdoc [Some (Cache.mkchunk 0 chars t)] [] 0%N) [] keep (Some (Cache.mkchunk 0 chars t))
+    = ([((chars, tok_hash t, cfg_hash cfg), F t)], Ok (F t))).
+  { intros t keep. unfold lint_chunk_c. cbn [k_start Cache.c_start c_evict filter c_get]. rewrite (P1 t), P2.
+    unfold c_put. cbn [k_key Cache.c_chars]. rewrite spec_rel_at_0, map_push_lint_0. reflexivity. }
+  assert (Ehit :
+    lint_chunk_c body (kdoc kind) (kchunk kind) srule (kprule body kind) k_start k_run_pat (text * N) HK kk_eqb hk_eqb
+      (k_key tok_hash) cfg_hash gc (Cache.mkdoc [Some (Cache.mkchunk 0 chars t2)] [] 0%N)
+      [((chars, tok_hash t1, cfg_hash cfg), F t1)] (fun _ => true) (Some (Cache.mkchunk 0 chars t2))
+    = ([((chars, tok_hash t1, cfg_hash cfg), F t1)], Ok (F t1))).
+  { unfold lint_chunk_c. cbn [k_start Cache.c_start c_evict filter fst k_key Cache.c_chars].
+    rewrite spec_rel_at_0, <- Hh. cbn [c_get]. unfold key_eqb. cbn [fst snd gc g_with_cfg g_cfg].
+    rewrite kk_eqb_refl, Hrefl. cbn [andb]. now rewrite map_push_lint_0. }
+  split; [|split].
+  - cbn [run_hist]. unfold lint_group_c. cbn [k_chunks Cache.d_chunks lint_chunks_c hd tl].
+    fold gc. rewrite Emiss. cbn [fst snd]. rewrite Ehit. cbn [fst snd]. now rewrite !app_nil_r.
+  - unfold lint_group. cbn [k_chunks Cache.d_chunks lint_chunks]. unfold lint_chunk. cbn [k_start Cache.c_start].
+    rewrite (P1 t2), P2. cbn [bind]. now rewrite map_push_lint_0, app_nil_r.
+  - intros E. apply app_inv_head in E. contradiction.
+Qed.
